@@ -24,7 +24,7 @@ func init() {
 			"C15.7 in CreateAllocation no return lies between arming the lifetime timer and publishing the allocation in the table, and the insert precedes the created-callback; " +
 			"C15.8 (=C04.2) every 5-tuple handed to the manager — including the teardown tuple after a stream connection ends — is built from the addresses of that very request/connection; " +
 			"C15.9 the bind-timeout of a peer TCP connection releases it through the allocation object it was registered on (captured), not through a lookup among the live allocations — which would miss a connection registered on an allocation that has ended; " +
-			"C15.10 a goroutine's completion signal cannot block for ever: goroutines that send on a channel local to the function that started them are matched by enough receives or buffer (cancel functions and close() never block). C15.11 (=C06.10) the lifetime timer is Reset by Refresh alone. C15.12 (=C07.8) report and removal of a binding are one step.",
+			"C15.10 a goroutine's completion signal cannot block for ever: goroutines that send on a channel local to the function that started them are matched by enough receives or buffer (cancel functions and close() never block). C15.11 (=C06.10) the lifetime timer is Reset by Refresh alone. C15.12 (=C07.8) report and removal of a binding are one step. C15.13 OnChannelCreated is called inside the hold of channelBindingsLock that inserted the binding.",
 		NotCovered: "'exactly once', counts at quiescence and goroutine drain are dynamic; what a relay generator or callback does internally.",
 		Run:        runC15,
 	})
@@ -48,6 +48,7 @@ func runC15(c *Ctx) {
 	ruleGoroutineSignalsDoNotBlock(c, "C15.10")
 	ruleLifetimeTimerResetByRefresh(c, "C15.11")
 	ruleReportWithRemoval(c, "C15.12")
+	ruleChannelAnnouncedUnderInsertLock(c, "C15.13")
 }
 
 // ---------------------------------------------------------------------------------
